@@ -43,6 +43,11 @@ func main() {
 		{Cfg: mk("2111-byz-small", []int64{2, 1, 1, 1}, netsim.Config{Byz: []int{3}}), Bound: b - 1},
 		{Cfg: mk("4x1-two-heights", one, netsim.Config{Byz: []int{3}, TargetHeight: 2}), Bound: b - 1},
 	}
+	macro := "macro2"
+	if r.Thorough() {
+		macro = "macro3"
+	}
+	scen = append(scen, netsim.Scenario{Cfg: mk("4x1-"+macro+"-round-shapes", one, netsim.Config{Byz: []int{3}, Driver: macro}), Bound: 0})
 	dl := 10 * time.Minute
 	if r.Thorough() {
 		dl = 30 * time.Minute
